@@ -8,6 +8,8 @@ SPEC = {
         {"name": "end-to-end", "pkg": O4, "kind": "rapid", "run": "^TestVerifC09EndToEnd$", "common": {"shrinktime": "5s"},
          "quick": {"checks": 150, "shards": 6, "timeout": 300},
          "thorough": {"checks": 1500, "shards": 16, "timeout": 3000}},
+        {"name": "paranoid-termination", "pkg": O4, "kind": "plain", "run": "^TestVerifC09ParanoidTermination$",
+         "quick": {"shards": 8, "timeout": 300}, "thorough": {"shards": 16, "timeout": 1500}},
     ],
 }
 
